@@ -1,7 +1,10 @@
 (* Narrow, decidable descriptions of the two recorded findings about C07 (known_findings.json):
-   F20c  a segment delivers the end of a CHUNKED request body together with bytes of the next request
+   F20c  (REPAIRED: the body reader hands back, when it is dropped, the bytes it holds beyond the end of the body, and the
+         next read_request starts with them; nothing pinned depends on [known_F20c] any more - C07_transcript_any holds
+         for every segmentation)
+         a segment delivers the end of a CHUNKED request body together with bytes of the next request
          (only possible when the next request is sent while an already-answered request's body is
-         still being discarded): the chunked reader's read-ahead swallows those bytes;
+         still being discarded): the chunked reader's read-ahead swallowed those bytes;
    F21   (REPAIRED, dc753b5: the connection is closed after the response; nothing pinned depends on [known_F21] any more)
          a request whose body is malformed or cut short is answered although the error never reaches the
          server (the handler or hook ignores the body, reads only part of it, or swallows the read error):
